@@ -582,7 +582,7 @@ class NP2Converter:
             bin_file = self.shank_info[sh]["ap_file"]
             if overwrite:
                 cbin_file = bin_file.with_suffix(".cbin")
-                cbin_file.unlink()
+                cbin_file.unlink(missing_ok=True)
 
             sr_ap = spikeglx.Reader(bin_file)
             cbin_file = sr_ap.compress_file(**kwargs)
@@ -593,7 +593,7 @@ class NP2Converter:
             bin_file = self.shank_info[sh]["lf_file"]
             if overwrite:
                 cbin_file = bin_file.with_suffix(".cbin")
-                cbin_file.unlink()
+                cbin_file.unlink(missing_ok=True)
             sr_lf = spikeglx.Reader(bin_file)
             cbin_file = sr_lf.compress_file(**kwargs)
             sr_lf.close()
@@ -616,7 +616,7 @@ class NP2Converter:
             bin_file = self.shank_info[sh]["lf_file"]
             if overwrite:
                 cbin_file = bin_file.with_suffix(".cbin")
-                cbin_file.unlink()
+                cbin_file.unlink(missing_ok=True)
             sr_lf = spikeglx.Reader(bin_file)
             cbin_file = sr_lf.compress_file()
             sr_lf.close()
